@@ -134,19 +134,27 @@ func pointerize(t, base reflect.Type, v reflect.Value) reflect.Value {
 	}
 
 	if t.Kind() == reflect.Interface {
+		// a value whose methods have pointer receivers satisfies the
+		// interface through its address only
+		if !v.Type().AssignableTo(t) && reflect.PtrTo(v.Type()).AssignableTo(t) {
+			return addressOf(v)
+		}
 		return v
 	}
 
 	for t != v.Type() {
-		if !v.CanAddr() {
-			tmp := reflect.New(v.Type())
-			tmp.Elem().Set(v)
-			v = tmp
-		} else {
-			v = v.Addr()
-		}
+		v = addressOf(v)
 	}
 	return v
+}
+
+func addressOf(v reflect.Value) reflect.Value {
+	if v.CanAddr() {
+		return v.Addr()
+	}
+	tmp := reflect.New(v.Type())
+	tmp.Elem().Set(v)
+	return tmp
 }
 
 func isInt(k reflect.Kind) bool {
